@@ -269,7 +269,7 @@ fn check_member(rep: &mut Report, fam: usize, i: usize, phase: &str, rt: Option<
 /// then descending, then in a shuffled order with revisits, then round-robin
 /// across families.
 fn family_sweep(rep: &mut Report, args: &Args) {
-    let n: usize = args.kv.get("family-n").and_then(|v| v.parse().ok()).unwrap_or(300);
+    let n: usize = args.kv.get("family-n").and_then(|v| v.parse().ok()).unwrap_or(if args.tier == "thorough" { 5000 } else { 300 });
     let rt = make_runtime();
     let fams: Vec<usize> = (0..24).filter(|f| (*f as u64) % args.shards == args.shard).collect();
     for &fam in &fams {
